@@ -1,5 +1,368 @@
 /- helper lemmas shared by C07 / C10 (coordinates, neighbours, borders, distances) -/
 import Panoptica.Model.Geometry
 import Panoptica.Spec.Reach
+import Panoptica.Spec.Transforms
 namespace Panoptica
+open Panoptica.Spec
+
+/-! ### sums -/
+
+theorem filterMap_congr' {α β : Type} {f g : α → Option β} {l : List α}
+    (h : ∀ x ∈ l, f x = g x) : l.filterMap f = l.filterMap g := by
+  induction l with
+  | nil => rfl
+  | cons x xs ih =>
+    simp only [List.filterMap_cons, h x (by simp), ih (fun y hy => h y (List.mem_cons_of_mem _ hy))]
+
+theorem foldl_add_eq_sum (l : List Nat) (acc : Nat) : l.foldl (· + ·) acc = acc + l.sum := by
+  induction l generalizing acc with
+  | nil => simp
+  | cons x xs ih => simp only [List.foldl_cons, ih, List.sum_cons]; omega
+
+@[simp] theorem absDiffs_nil_left (b : Coord) : absDiffs [] b = [] := by
+  simp [absDiffs]
+
+@[simp] theorem absDiffs_nil_right (a : Coord) : absDiffs a [] = [] := by
+  cases a <;> simp [absDiffs]
+
+@[simp] theorem absDiffs_cons (a : Int) (as : Coord) (b : Int) (bs : Coord) :
+    absDiffs (a :: as) (b :: bs) = (a - b).natAbs :: absDiffs as bs := by
+  simp [absDiffs]
+
+theorem faceAdj_iff (a b : Coord) :
+    faceAdj a b = true ↔ a.length = b.length ∧ (absDiffs a b).sum = 1 := by
+  simp [faceAdj, foldl_add_eq_sum]
+
+theorem sqDist_eq_sum (a b : Coord) : sqDist a b = ((absDiffs a b).map (fun d => d * d)).sum := by
+  simp [sqDist, foldl_add_eq_sum]
+
+theorem sqDist_cons (a : Int) (as : Coord) (b : Int) (bs : Coord) :
+    sqDist (a :: as) (b :: bs) = (a - b).natAbs * (a - b).natAbs + sqDist as bs := by
+  simp [sqDist_eq_sum]
+
+theorem absDiffs_sum_eq_zero (a b : Coord) (h : a.length = b.length) :
+    (absDiffs a b).sum = 0 ↔ a = b := by
+  induction a generalizing b with
+  | nil => cases b <;> simp_all
+  | cons x xs ih =>
+    cases b with
+    | nil => simp at h
+    | cons y ys =>
+      simp only [List.length_cons, Nat.add_right_cancel_iff] at h
+      simp only [absDiffs_cons, List.sum_cons, Nat.add_eq_zero_iff, ih ys h, List.cons.injEq]
+      constructor <;> rintro ⟨h1, h2⟩ <;> exact ⟨by omega, h2⟩
+
+theorem sqDist_eq_zero_iff (a b : Coord) (h : a.length = b.length) : sqDist a b = 0 ↔ a = b := by
+  induction a generalizing b with
+  | nil => cases b <;> simp_all [sqDist_eq_sum]
+  | cons x xs ih =>
+    cases b with
+    | nil => simp at h
+    | cons y ys =>
+      simp only [List.length_cons, Nat.add_right_cancel_iff] at h
+      simp only [sqDist_cons, Nat.add_eq_zero_iff, ih ys h, List.cons.injEq, Nat.mul_eq_zero, or_self]
+      constructor <;> rintro ⟨h1, h2⟩ <;> exact ⟨by omega, h2⟩
+
+theorem sqDist_self (a : Coord) : sqDist a a = 0 := (sqDist_eq_zero_iff a a rfl).2 rfl
+
+/-! ### face neighbours -/
+
+theorem length_of_mem_faceNeighbours (c x : Coord) (h : x ∈ faceNeighbours c) : x.length = c.length := by
+  induction c generalizing x with
+  | nil => simp [faceNeighbours] at h
+  | cons a as ih =>
+    simp only [faceNeighbours, List.mem_cons, List.mem_map] at h
+    rcases h with rfl | rfl | ⟨t, ht, rfl⟩
+    · simp
+    · simp
+    · simp [ih t ht]
+
+theorem mem_faceNeighbours_iff (c x : Coord) : x ∈ faceNeighbours c ↔ faceAdj c x = true := by
+  rw [faceAdj_iff]
+  induction c generalizing x with
+  | nil => cases x <;> simp [faceNeighbours]
+  | cons a as ih =>
+    cases x with
+    | nil => simp [faceNeighbours]
+    | cons y ys =>
+      simp only [faceNeighbours, List.mem_cons, List.mem_map, List.cons.injEq, List.length_cons,
+        Nat.add_right_cancel_iff, absDiffs_cons, List.sum_cons]
+      constructor
+      · rintro (⟨rfl, rfl⟩ | ⟨rfl, rfl⟩ | ⟨t, ht, rfl, rfl⟩)
+        · refine ⟨rfl, ?_⟩
+          have := (absDiffs_sum_eq_zero ys ys rfl).2 rfl
+          omega
+        · refine ⟨rfl, ?_⟩
+          have := (absDiffs_sum_eq_zero ys ys rfl).2 rfl
+          omega
+        · have := (ih t).1 ht
+          refine ⟨this.1, ?_⟩
+          omega
+      · rintro ⟨hl, hs⟩
+        by_cases h0 : (absDiffs as ys).sum = 0
+        · have := (absDiffs_sum_eq_zero as ys hl).1 h0
+          subst this
+          have : y = a - 1 ∨ y = a + 1 := by omega
+          rcases this with rfl | rfl
+          · exact Or.inl ⟨rfl, rfl⟩
+          · exact Or.inr (Or.inl ⟨rfl, rfl⟩)
+        · refine Or.inr (Or.inr ⟨ys, (ih ys).2 ⟨hl, by omega⟩, by omega, rfl⟩)
+
+theorem mem_border_iff (X : List Coord) (c : Coord) :
+    c ∈ border X ↔ c ∈ X ∧ ∃ x, faceAdj c x = true ∧ x ∉ X := by
+  simp [border, List.mem_filter, mem_faceNeighbours_iff]
+
+theorem border_subset (X : List Coord) : ∀ c ∈ border X, c ∈ X := fun _ h =>
+  (List.mem_filter.1 h).1
+
+/-! ### nearest -/
+
+theorem nearestSq_spec' (a : Coord) (B : List Coord) (hB : B ≠ []) :
+    ∃ b ∈ B, nearestSq a B = some (sqDist a b) ∧ ∀ b' ∈ B, sqDist a b ≤ sqDist a b' := by
+  induction B with
+  | nil => exact absurd rfl hB
+  | cons b bs ih =>
+    by_cases hbs : bs = []
+    · subst hbs
+      exact ⟨b, by simp, by simp [nearestSq], by simp⟩
+    · obtain ⟨m, hm, hsome, hmin⟩ := ih hbs
+      by_cases hle : sqDist a b ≤ sqDist a m
+      · refine ⟨b, by simp, by simp [nearestSq, hsome, Nat.min_eq_left hle], ?_⟩
+        intro b' hb'
+        rcases List.mem_cons.1 hb' with rfl | hb'
+        · exact Nat.le_refl _
+        · exact Nat.le_trans hle (hmin b' hb')
+      · refine ⟨m, by simp [hm], by simp [nearestSq, hsome]; omega, ?_⟩
+        intro b' hb'
+        rcases List.mem_cons.1 hb' with rfl | hb'
+        · omega
+        · exact hmin b' hb'
+
+/-! ### coordinate-wise structure of `absDiffs` -/
+
+theorem absDiffs_eq_zipWith (a b : Coord) :
+    absDiffs a b = List.zipWith (fun x y => (x - y).natAbs) a b := by
+  induction a generalizing b with
+  | nil => simp
+  | cons x xs ih => cases b <;> simp [ih]
+
+theorem length_absDiffs (a b : Coord) : (absDiffs a b).length = min a.length b.length := by
+  simp [absDiffs_eq_zipWith]
+
+theorem getElem_absDiffs (a b : Coord) (k : Nat) (h : k < (absDiffs a b).length)
+    (ha : k < a.length) (hb : k < b.length) :
+    (absDiffs a b)[k] = (a[k] - b[k]).natAbs := by
+  simp [absDiffs_eq_zipWith]
+
+theorem absDiffs_set (a b : Coord) (k : Nat) (u v : Int) :
+    absDiffs (a.set k u) (b.set k v) = (absDiffs a b).set k (u - v).natAbs := by
+  induction a generalizing b k with
+  | nil => simp
+  | cons x xs ih =>
+    cases b with
+    | nil => simp
+    | cons y ys => cases k <;> simp [ih]
+
+theorem sqDist_eq_of_perm {a b a' b' : Coord} (h : (absDiffs a' b').Perm (absDiffs a b)) :
+    sqDist a' b' = sqDist a b := by
+  rw [sqDist_eq_sum, sqDist_eq_sum]
+  exact (h.map _).sum_nat
+
+/-! ### grid isometries -/
+
+/-- a length-preserving map with a right inverse that permutes the coordinate differences is a
+    grid isometry -/
+theorem GridIsometry.of_perm (f g : Coord → Coord) (n : Nat)
+    (hlen : ∀ c, c.length = n → (f c).length = n)
+    (hglen : ∀ c, c.length = n → (g c).length = n)
+    (hfg : ∀ c, c.length = n → f (g c) = c)
+    (hperm : ∀ a b, a.length = n → b.length = n → (absDiffs (f a) (f b)).Perm (absDiffs a b)) :
+    GridIsometry f n where
+  len := hlen
+  inj := by
+    intro a b ha hb hab
+    have h0 : sqDist (f a) (f b) = 0 := by rw [hab]; exact sqDist_self _
+    rw [sqDist_eq_of_perm (hperm a b ha hb)] at h0
+    exact (sqDist_eq_zero_iff a b (by omega)).1 h0
+  dist := fun a b ha hb => sqDist_eq_of_perm (hperm a b ha hb)
+  nbr := by
+    intro c x hc
+    constructor
+    · intro hx
+      have hxl : x.length = n := by
+        rw [length_of_mem_faceNeighbours _ _ hx]; exact hlen c hc
+      have hadj := (faceAdj_iff _ _).1 ((mem_faceNeighbours_iff _ _).1 hx)
+      refine ⟨g x, ?_, hfg x hxl⟩
+      rw [mem_faceNeighbours_iff, faceAdj_iff]
+      refine ⟨by rw [hc, hglen x hxl], ?_⟩
+      have := (hperm c (g x) hc (hglen x hxl)).sum_nat
+      rw [hfg x hxl] at this
+      omega
+    · rintro ⟨y, hy, rfl⟩
+      have hyl : y.length = n := by rw [length_of_mem_faceNeighbours _ _ hy]; exact hc
+      have hadj := (faceAdj_iff _ _).1 ((mem_faceNeighbours_iff _ _).1 hy)
+      rw [mem_faceNeighbours_iff, faceAdj_iff]
+      refine ⟨by rw [hlen c hc, hlen y hyl], ?_⟩
+      have := (hperm c y hc hyl).sum_nat
+      omega
+
+/-! #### translation -/
+
+theorem length_translate (t c : Coord) : (translate t c).length = min t.length c.length := by
+  simp [translate]
+
+theorem translate_neg_cancel (t c : Coord) (h : t.length = c.length) :
+    translate t (translate (t.map (fun x => -x)) c) = c := by
+  induction t generalizing c with
+  | nil => cases c <;> simp_all [translate]
+  | cons x xs ih =>
+    cases c with
+    | nil => simp at h
+    | cons y ys =>
+      simp only [List.length_cons, Nat.add_right_cancel_iff] at h
+      have := ih ys h
+      simp only [translate] at this ⊢
+      simp only [List.map_cons, List.zipWith_cons_cons, this, List.cons.injEq, and_true]
+      omega
+
+theorem absDiffs_translate (t a b : Coord) (ha : a.length = t.length) (hb : b.length = t.length) :
+    absDiffs (translate t a) (translate t b) = absDiffs a b := by
+  induction t generalizing a b with
+  | nil => cases a <;> cases b <;> simp_all [translate]
+  | cons x xs ih =>
+    cases a with
+    | nil => simp at ha
+    | cons y ys =>
+      cases b with
+      | nil => simp at hb
+      | cons z zs =>
+        simp only [List.length_cons, Nat.add_right_cancel_iff] at ha hb
+        have := ih ys zs ha hb
+        simp only [translate] at this ⊢
+        simp only [List.zipWith_cons_cons, absDiffs_cons, this, List.cons.injEq, and_true]
+        congr 1
+        omega
+
+theorem translate_gridIsometry (n : Nat) (t : Coord) (ht : t.length = n) :
+    GridIsometry (translate t) n :=
+  GridIsometry.of_perm (translate t) (translate (t.map (fun x => -x))) n
+    (fun c hc => by rw [length_translate]; omega)
+    (fun c hc => by rw [length_translate, List.length_map]; omega)
+    (fun c hc => translate_neg_cancel t c (by omega))
+    (fun a b ha hb => by rw [absDiffs_translate t a b (by omega) (by omega)])
+
+/-! #### mirroring an axis -/
+
+theorem flipAxis_eq (k : Nat) (m : Int) (c : Coord) (hk : k < c.length) :
+    flipAxis k m c = c.set k (m - 1 - c[k]) := by
+  simp [flipAxis, List.getD_eq_getElem?_getD, hk]
+
+theorem flipAxis_gridIsometry (n k : Nat) (m : Int) (hk : k < n) : GridIsometry (flipAxis k m) n := by
+  have hlen : ∀ c : Coord, c.length = n → (flipAxis k m c).length = n := by
+    intro c hc; simp [flipAxis, hc]
+  refine GridIsometry.of_perm (flipAxis k m) (flipAxis k m) n hlen hlen ?_ ?_
+  · intro c hc
+    rw [flipAxis_eq k m c (by omega), flipAxis_eq k m _ (by simp; omega)]
+    apply List.ext_getElem (by simp)
+    intro i h1 h2
+    simp only [List.getElem_set, List.set_set]
+    split
+    · subst_vars; simp only [if_true]; omega
+    · rfl
+  · intro a b ha hb
+    rw [flipAxis_eq k m a (by omega), flipAxis_eq k m b (by omega), absDiffs_set]
+    have hl : k < (absDiffs a b).length := by rw [length_absDiffs]; omega
+    have : (m - 1 - a[k] - (m - 1 - b[k])).natAbs = (absDiffs a b)[k] := by
+      rw [getElem_absDiffs a b k hl (by omega) (by omega)]; omega
+    rw [this, List.set_getElem_self]
+
+/-! #### exchanging two axes -/
+
+theorem swapAxes_eq (i j : Nat) (c : Coord) (hi : i < c.length) (hj : j < c.length) :
+    swapAxes i j c = (c.set i c[j]).set j c[i] := by
+  simp [swapAxes, List.getD_eq_getElem?_getD, hi, hj]
+
+theorem swapAxes_gridIsometry (n i j : Nat) (hi : i < n) (hj : j < n) :
+    GridIsometry (swapAxes i j) n := by
+  have hlen : ∀ c : Coord, c.length = n → (swapAxes i j c).length = n := by
+    intro c hc; simp [swapAxes, hc]
+  refine GridIsometry.of_perm (swapAxes i j) (swapAxes i j) n hlen hlen ?_ ?_
+  · intro c hc
+    rw [swapAxes_eq i j c (by omega) (by omega), swapAxes_eq i j _ (by simp; omega) (by simp; omega)]
+    apply List.ext_getElem (by simp)
+    intro k h1 h2
+    simp only [List.getElem_set]
+    grind
+  · intro a b ha hb
+    rw [swapAxes_eq i j a (by omega) (by omega), swapAxes_eq i j b (by omega) (by omega),
+      absDiffs_set, absDiffs_set]
+    have hli : i < (absDiffs a b).length := by rw [length_absDiffs]; omega
+    have hlj : j < (absDiffs a b).length := by rw [length_absDiffs]; omega
+    rw [← getElem_absDiffs a b i hli (by omega) (by omega),
+      ← getElem_absDiffs a b j hlj (by omega) (by omega)]
+    exact List.set_set_perm hli hlj
+
+/-! ### borders and nearest distances under an isometry -/
+
+theorem border_map (n : Nat) (f : Coord → Coord) (hf : GridIsometry f n) (X : List Coord)
+    (hX : ∀ c ∈ X, c.length = n) : border (X.map f) = (border X).map f := by
+  unfold border
+  rw [List.filter_map]
+  congr 1
+  apply List.filter_congr
+  intro c hc
+  have hcl := hX c hc
+  rw [Bool.eq_iff_iff]
+  simp only [Function.comp_apply, List.any_eq_true, Bool.not_eq_true', List.contains_eq_mem,
+    decide_eq_false_iff_not, List.mem_map, not_exists, not_and]
+  constructor
+  · rintro ⟨x, hx, hnot⟩
+    obtain ⟨y, hy, rfl⟩ := (hf.nbr c x hcl).1 hx
+    exact ⟨y, hy, fun hyX => hnot y hyX rfl⟩
+  · rintro ⟨y, hy, hyX⟩
+    refine ⟨f y, (hf.nbr c (f y) hcl).2 ⟨y, hy, rfl⟩, ?_⟩
+    intro z hz hzy
+    have hyl : y.length = n := by rw [length_of_mem_faceNeighbours _ _ hy]; exact hcl
+    have := hf.inj z y (hX z hz) hyl hzy
+    exact hyX (this ▸ hz)
+
+theorem nearestSq_map (n : Nat) (f : Coord → Coord) (hf : GridIsometry f n) (p : Coord)
+    (hp : p.length = n) (B : List Coord) (hB : ∀ c ∈ B, c.length = n) :
+    nearestSq (f p) (B.map f) = nearestSq p B := by
+  induction B with
+  | nil => rfl
+  | cons b bs ih =>
+    have := ih (fun c hc => hB c (List.mem_cons_of_mem _ hc))
+    simp only [List.map_cons, nearestSq, this, hf.dist p b hp (hB b (by simp))]
+
+theorem surfaceSqDists_map (n : Nat) (f : Coord → Coord) (hf : GridIsometry f n)
+    (R P : List Coord) (hR : ∀ c ∈ R, c.length = n) (hP : ∀ c ∈ P, c.length = n) :
+    surfaceSqDists (R.map f) (P.map f) = surfaceSqDists R P := by
+  unfold surfaceSqDists
+  simp only [border_map n f hf R hR, border_map n f hf P hP, List.filterMap_map]
+  apply filterMap_congr'
+  intro p hp
+  exact nearestSq_map n f hf p (hP p (border_subset P p hp)) (border R)
+    (fun c hc => hR c (border_subset R c hc))
+
+/-- the directed list is the map of `nearestSq` when the reference border is not empty -/
+theorem surfaceSqDists_spec' (R P : List Coord) (hR : border R ≠ []) :
+    (surfaceSqDists R P).length = (border P).length ∧
+    ∀ i (h : i < (border P).length) (h' : i < (surfaceSqDists R P).length),
+      nearestSq ((border P)[i]) (border R) = some ((surfaceSqDists R P)[i]) := by
+  have hsome : ∀ p, nearestSq p (border R) = some ((nearestSq p (border R)).getD 0) := by
+    intro p
+    obtain ⟨b, -, hb, -⟩ := nearestSq_spec' p (border R) hR
+    rw [hb]; rfl
+  have heq : surfaceSqDists R P = (border P).map (fun p => (nearestSq p (border R)).getD 0) := by
+    unfold surfaceSqDists
+    rw [← List.filterMap_eq_map]
+    apply filterMap_congr'
+    intro p _
+    exact hsome p
+  refine ⟨by rw [heq, List.length_map], ?_⟩
+  intro i h h'
+  rw [hsome]
+  simp [heq]
+
 end Panoptica
